@@ -211,6 +211,8 @@ impl ReadBufPool {
         );
         // NOTE: poising the buffer again, unpoisoned in ReadBufPool::init_buffer.
         asan::poison_region(ptr.as_ptr().cast(), self.buf_size());
+        #[cfg(a10_verif)]
+        crate::verif::sched_point(crate::verif::POINT_BUF_TAIL_STORE);
         ring_tail.store(tail.wrapping_add(1), Ordering::Release);
         unlock(guard);
     }
